@@ -239,6 +239,9 @@ func (f *frame) rangeInit(i *ssa.Range, n *node, st *State) {
 	if _, ok := v.T.Underlying().(*types.Map); !ok {
 		fail("range over %v (only maps reach the Range instruction)", v.T)
 	}
+	// a new iteration: nothing visited yet
+	visited := st.region("ghost.visited", SArr(SArr(SBool)))
+	st.setRegion("ghost.visited", Store(visited, v.One(), mk(&Term{Op: "constarr", Args: []*Term{TFalse}, S: SArr(SBool)})))
 	f.setReg(i, n.Ctx, Value{T: i.Type(), C: []*Term{v.One()}})
 }
 
@@ -267,6 +270,8 @@ func (f *frame) rangeNext(i *ssa.Next, n *node, st *State) {
 		val.C[j] = Select(Select(st.region(vals[j], SArr(SArr(c.Sort))), ref), k)
 	}
 	x.assumeTrue(WFValue(val))
+	// the values of a map with a declared content invariant satisfy it
+	x.assume(st.pc, Implies(ok, f.mapInvTerm(rng.X, val, n, st)), "map content invariant")
 	out := []*Term{ok}
 	out = append(out, kt.C...)
 	out = append(out, val.C...)
